@@ -242,7 +242,9 @@ fn table_index_rook(s: Square, blockers: Bitboard) -> usize {
 }
 
 #[cfg(jgilchrist_tcheran_verif)]
-pub const VERIF_TABLE_LEN: usize = 87988;
+pub fn verif_table_len() -> usize {
+    unsafe { ATTACKS_TABLE.len() }
+}
 
 #[cfg(jgilchrist_tcheran_verif)]
 pub fn verif_table_index_rook(s: Square, blockers: Bitboard) -> usize {
